@@ -5,6 +5,7 @@
 (*   Auth     c p ok            an AUTH message and whether it was accepted *)
 (*   Probe    c action allowed [sid]  an EVENT (save) / REQ (query), its fate *)
 (*   Push     c sid             an EVENT frame arrived under that sub id    *)
+(*   Closed   c                 the relay closed the connection             *)
 (*   CanDo    roles action cfg allowed   Authenticator.can_do called        *)
 (*            directly (roles = <<>> for no token, else <<set>>)            *)
 (*   SetRoles key roles / GetRoles key roles    role assignments            *)
@@ -34,6 +35,12 @@ TraceNext ==
               /\ last' = [a |-> "auth", c |-> Line.c, p |-> Line.p, ok |-> Line.ok]
               /\ UNCHANGED <<assigned, refused>>
               /\ bad' = bad \cup {<<n, l>> : n \in (IF A!Auth(Line.c, Line.p, Line.ok) THEN {} ELSE {"Conform"}) \cup A!StepVerdict}
+         [] Line.a = "Closed" ->
+              \* the relay closed connection c (close code logged)
+              /\ token' = [token EXCEPT ![Line.c] = A!Closed]
+              /\ last' = [a |-> "close", c |-> Line.c]
+              /\ UNCHANGED <<assigned, refused>>
+              /\ bad' = bad \cup {<<n, l>> : n \in A!StepVerdict}
          [] Line.a = "Probe" ->
               /\ UNCHANGED <<token, assigned>>
               /\ last' = [a |-> "probe", c |-> Line.c, action |-> Line.action, allowed |-> Line.allowed]
